@@ -356,7 +356,9 @@ def _term_chain_ends(t, suffix):
 
 
 # ---------------------------------------------------------------------- graph queries with edge cuts
-def reach(S, starts, cut_edges=(), cut_nodes=(), backward=False):
+def reach(S, starts, cut_edges=(), cut_nodes=(), backward=False, plain=False):
+    if not backward and not plain:
+        return reach_pf(S, starts, cut_edges, cut_nodes)
     cut_edges = set(cut_edges)
     cut_nodes = set(cut_nodes)
     adj = S.pred if backward else S.succ
@@ -389,6 +391,10 @@ def reach_in(S, starts, ctx, cut_edges=(), cut_nodes=()):
     cut_edges = set(cut_edges)
     cut_nodes = set(cut_nodes)
     rets = set(ctx.returns)
+    # path-sensitive (reach_pf), with the context's returns as the boundary
+    bound = set((r_, b_) for r_ in rets for b_ in S.succ[r_])
+    pf = reach_pf(S, [s_ for s_ in starts if s_ not in cut_nodes], cut_edges | bound, cut_nodes)
+    return set(x for x in pf if descends(S.nodes[x].ctx, ctx))
     seen = set()
     st = [s for s in starts if s not in cut_nodes]
     while st:
@@ -430,163 +436,434 @@ def local_loop(S, node, ctx):
 TRY_MAP = {"Ok": "Continue", "Err": "Break", "Some": "Continue", "None": "Break"}
 
 
-def reach_pf(S, starts, cut_edges=(), cut_nodes=(), facts0=()):
-    """Forward reachability refined by a must-analysis of enum variants (E2): facts "local L of
-    context C holds variant V" are created by enum aggregates (and by `?`'s from_residual), copied by
-    moves / await results / call returns, mapped through Try::branch, killed by other assignments,
-    intersected at joins, and used to prune switches on the discriminant of that local."""
+PF_K = 8
+
+
+def _pf_path(pj):
+    """Projection list -> fact path (downcast / field elements only), or None."""
+    out = []
+    for e in pj or ():
+        if e["k"] == "downcast":
+            out.append(("d", e.get("n") if e.get("n") is not None else e.get("v")))
+        elif e["k"] == "field":
+            out.append(("f", e["i"]))
+        else:
+            return None
+    return tuple(out)
+
+
+def _pf_tainted(bv):
+    """Locals of a body whose address is taken mutably (or as a raw pointer): nothing is learnt about them from a switch."""
+    t = getattr(bv, "_pf_taint", None)
+    if t is None:
+        t = set()
+        for bl in bv.blocks:
+            for s_ in bl["s"]:
+                if s_["k"] == "assign" and s_["r"]["k"] in ("ref", "rawptr") and (s_["r"]["k"] == "rawptr" or s_["r"].get("m")):
+                    pl = s_["r"]["p"]
+                    pj = pl.get("p") or []
+                    if not any(e["k"] == "deref" for e in pj):
+                        t.add(pl["l"])
+        bv._pf_taint = t
+    return t
+
+
+def _pf_const_bool(o, types):
+    if "k" in o and "v" in o["k"] and types[o["k"]["t"]]["s"] == "bool":
+        return "true" if o["k"]["v"] else "false"
+    return None
+
+
+def _pf_src(o):
+    pl = o.get("m") or o.get("c")
+    if pl is None:
+        return None
+    pp = _pf_path(pl.get("p"))
+    if pp is None:
+        return None
+    return (pl["l"], pp)
+
+
+def _pf_relevant(bv):
+    """Locals of a body about which a fact can ever be consulted: the subject of a switch, the return place, an argument of a
+    call (a spliced callee may switch on its parameter), and whatever is moved or built into one of those."""
+    rel = getattr(bv, "_pf_rel", None)
+    if rel is not None:
+        return rel
+    rel = {0}
+    flows = {}      # destination local -> source locals
+    for bi, bl in enumerate(bv.blocks):
+        for s_ in bl["s"]:
+            if s_["k"] != "assign":
+                continue
+            r = s_["r"]
+            srcs = []
+            if r["k"] == "agg":
+                srcs = [_pf_src(o_) for o_ in r.get("ops", [])]
+            elif r["k"] == "use":
+                srcs = [_pf_src(r["o"])]
+            for x in srcs:
+                if x is not None:
+                    flows.setdefault(s_["p"]["l"], set()).add(x[0])
+        t = bl["t"]
+        if t["k"] == "switch":
+            sub = bv.switch_subject(bi)
+            if sub is not None:
+                rel.add(sub[0]["l"])
+            else:
+                pl_ = t["o"].get("m") or t["o"].get("c")
+                if pl_ is not None:
+                    rel.add(pl_["l"])
+        elif t["k"] == "call":
+            cal = t.get("callee")
+            if cal == "std::ops::Try::branch":
+                x = _pf_src(t["args"][0]) if t["args"] else None
+                if x is not None:
+                    flows.setdefault(t["dest"]["l"], set()).add(x[0])
+            elif not (cal or "").startswith(("std::", "core::", "alloc::")):
+                for a_ in t["args"]:
+                    x = _pf_src(a_)
+                    if x is not None:
+                        rel.add(x[0])
+    st = list(rel)
+    while st:
+        l = st.pop()
+        for x in flows.get(l, ()):
+            if x not in rel:
+                rel.add(x)
+                st.append(x)
+    bv._pf_rel = rel
+    return rel
+
+
+def _pf_compile(bv, bi):
+    """Statements of a block as fact-transfer operations (cached per body)."""
+    cache = bv.__dict__.setdefault("_pf_ops", {})
+    ops = cache.get(bi)
+    if ops is not None:
+        return ops
+    ops = []
+    types = bv.crate.types
+    rel = _pf_relevant(bv)
+    for s_ in bv.blocks[bi]["s"]:
+        k = s_["k"]
+        if k in ("dead", "assign", "setdiscr") and (s_["l"] if k == "dead" else s_["p"]["l"]) not in rel \
+                and not (k == "assign" and s_["r"]["k"] in ("ref", "rawptr")):
+            continue
+        if k == "dead":
+            ops.append(("kill", s_["l"], ()))
+        elif k == "setdiscr":
+            dp = _pf_path(s_["p"].get("p"))
+            if dp is not None:
+                ops.append(("kill", s_["p"]["l"], dp))
+        elif k == "assign":
+            l = s_["p"]["l"]
+            r = s_["r"]
+            dp = _pf_path(s_["p"].get("p"))
+            if dp is None:
+                continue            # a write through a reference or an index: the target is not a tracked place
+            if r["k"] == "agg" and r.get("ak") in ("adt", "tuple"):
+                vn = None
+                if r["ak"] == "adt":
+                    ad = bv.crate.adts.get(r["d"])
+                    if r["d"] in guards.STD_VARIANTS or (ad and ad["kind"] == "enum"):
+                        vn = r["vn"]
+                parts = []
+                for i_, o_ in enumerate(r.get("ops", [])):
+                    pre = dp + ((("d", vn), ("f", i_)) if vn is not None else (("f", i_),))
+                    src = _pf_src(o_)
+                    cb = _pf_const_bool(o_, types) if src is None else None
+                    if src is not None or cb is not None:
+                        parts.append((pre, src, cb))
+                ops.append(("set", l, dp, vn, parts))
+            elif r["k"] == "use":
+                src = _pf_src(r["o"])
+                cb = _pf_const_bool(r["o"], types) if src is None else None
+                ops.append(("set", l, dp, cb, [(dp, src, None)] if src is not None else []))
+            elif r["k"] in ("ref", "rawptr") and (r["k"] == "rawptr" or r.get("m")):
+                ops.append(("kill", l, dp))
+                bp = r["p"]
+                bpp = bp.get("p") or []
+                if not any(e["k"] == "deref" for e in bpp):
+                    pre = []
+                    for e in bpp:
+                        q = _pf_path([e])
+                        if q is None:
+                            break
+                        pre.extend(q)
+                    ops.append(("kill", bp["l"], tuple(pre)))
+            else:
+                ops.append(("kill", l, dp))
+    cache[bi] = ops
+    return ops
+
+
+import heapq
+
+
+def _pf_order(S):
+    """Reverse postorder numbering of the supergraph from its root (cached): joins are visited after their predecessors."""
+    o = S.__dict__.get("_pf_rpo")
+    if o is not None:
+        return o
+    seen = set()
+    post = []
+    for r0 in [S.root.entry] + list(range(len(S.nodes))):
+        if r0 in seen:
+            continue
+        seen.add(r0)
+        st = [(r0, iter(S.succ[r0]))]
+        while st:
+            a, it = st[-1]
+            adv = False
+            for b in it:
+                if b not in seen:
+                    seen.add(b)
+                    st.append((b, iter(S.succ[b])))
+                    adv = True
+                    break
+            if not adv:
+                post.append(a)
+                st.pop()
+    o = {}
+    # earlier roots first, and within a root reverse postorder
+    n = len(post)
+    for i_, a in enumerate(post):
+        o[a] = n - i_
+    S.__dict__["_pf_rpo"] = o
+    return o
+
+
+def reach_pf(S, starts, cut_edges=(), cut_nodes=(), facts0=(), want_facts=False):
+    """Forward reachability refined by a path-sensitive must-analysis of enum variants and boolean constants (E2).
+    A fact is ((context, local, path), value): the value at `path` (downcast/field steps) inside `local` is variant
+    `value` (or "true"/"false").  Facts are created by aggregates and constants, learnt on the arms of a switch over a
+    discriminant, copied by moves / aggregates / await results / call arguments and returns, mapped through Try::branch,
+    killed by other assignments, mutable borrows and StorageDead.  Every node keeps up to PF_K alternative fact sets
+    (one per group of paths that agree), so that `let d = match x { A => None, B => Some(..) }; if let Some(..) = d`
+    keeps the correlation between `x` and `d`; beyond PF_K the alternatives collapse to their intersection.  A switch on
+    a subject whose value is known only follows the matching arm."""
     cut_edges = set(cut_edges)
     cut_nodes = set(cut_nodes)
+    starts = list(starts)
+    f0 = frozenset(facts0)
+    memo = S.__dict__.setdefault("_pf_memo", {})
+    mkey = (frozenset(starts), frozenset(cut_edges), frozenset(cut_nodes), f0)
+    if mkey in memo:
+        IN = memo[mkey]
+        return IN if want_facts else set(IN)
     IN = {}
     work = []
-    f0 = frozenset(facts0)
+    order = _pf_order(S)
+    cnt = [0]
+
+    def push(w_, f_):
+        cnt[0] += 1
+        heapq.heappush(work, (order.get(w_, 0), cnt[0], w_, f_))
     for s_ in starts:
         if s_ not in cut_nodes:
-            IN[s_] = f0
-            work.append(s_)
-    si_cache = {}
+            IN[s_] = [f0]
+            push(s_, f0)
+    si_cache = S.__dict__.setdefault("_pf_si", {})
+
+    def kill(cur, l, pre):
+        d = cur.get(l)
+        if d:
+            if not pre:
+                del cur[l]
+            else:
+                n_ = len(pre)
+                for p_ in [p_ for p_ in d if p_[:n_] == pre]:
+                    del d[p_]
+
+    def sub(cur, src):
+        """facts below place `src` = (local, path), as (rest-of-path, value)"""
+        d = cur.get(src[0])
+        if not d:
+            return ()
+        pre = src[1]
+        if not pre:
+            return list(d.items())
+        n_ = len(pre)
+        return [(p_[n_:], v_) for p_, v_ in d.items() if p_[:n_] == pre]
+
     while work:
-        v = work.pop()
-        facts = IN[v]
+        _, _, v, facts = heapq.heappop(work)
+        if facts not in IN.get(v, ()):
+            continue
         nd = S.nodes[v]
         cid = nd.ctx.idx
         bv = nd.ctx.bv
-        fd = dict(facts)
-        bl = nd.block
-        for s_ in bl["s"]:
-            if s_["k"] != "assign" or s_["p"].get("p"):
-                continue
-            l = s_["p"]["l"]
-            r = s_["r"]
-            key = (cid, l)
-            if r["k"] == "agg" and r.get("ak") == "adt":
-                ad = bv.crate.adts.get(r["d"])
-                if r["d"] in guards.STD_VARIANTS or (ad and ad["kind"] == "enum"):
-                    fd[key] = r["vn"]
-                else:
-                    fd.pop(key, None)
-                # Poll::Ready(x) built in place (an inlined async helper delivers its result this way): what is known about x
-                # and about the fields of x is known about the payload
-                for k_ in [k_ for k_ in fd if k_[0] == cid and isinstance(k_[1], tuple) and k_[1][0] in ("rdy", "rdyfld") and k_[1][1] == l]:
-                    fd.pop(k_, None)
-                if r.get("vn") == "Ready" and len(r.get("ops", [])) == 1:
-                    pl_ = r["ops"][0].get("m") or r["ops"][0].get("c")
-                    if pl_ and not pl_.get("p"):
-                        if (cid, pl_["l"]) in fd:
-                            fd[(cid, ("rdy", l))] = fd[(cid, pl_["l"])]
-                        for k_, v_ in list(fd.items()):
-                            if k_[0] == cid and isinstance(k_[1], tuple) and k_[1][0] == "fld" and k_[1][1] == pl_["l"]:
-                                fd[(cid, ("rdyfld", l, k_[1][2]))] = v_
-            elif r["k"] == "agg" and r.get("ak") == "tuple":
-                fd.pop(key, None)
-                for i_, o_ in enumerate(r["ops"]):
-                    pl_ = o_.get("m") or o_.get("c")
-                    fk = (cid, ("fld", l, i_))
-                    if pl_ and not pl_.get("p") and (cid, pl_["l"]) in fd:
-                        fd[fk] = fd[(cid, pl_["l"])]
-                    else:
-                        fd.pop(fk, None)
-            elif r["k"] == "use" and ("m" in r["o"] or "c" in r["o"]):
-                pl = r["o"].get("m") or r["o"].get("c")
-                pj = pl.get("p", [])
-                src = None
-                if not pj:
-                    src = (cid, pl["l"])
-                elif len(pj) == 2 and pj[0]["k"] == "downcast" and pj[0].get("n") == "Ready" and pj[1]["k"] == "field":
-                    src = (cid, ("rdy", pl["l"]))
-                elif len(pj) == 1 and pj[0]["k"] == "field":
-                    src = (cid, ("fld", pl["l"], pj[0]["i"]))
-                if src is not None and src in fd:
-                    fd[key] = fd[src]
-                else:
-                    fd.pop(key, None)
-                # field facts travel with a move of the whole tuple (`x = move (r as Ready).0`, `y = move x`)
-                for k_ in [k_ for k_ in fd if k_[0] == cid and isinstance(k_[1], tuple) and k_[1][0] == "fld" and k_[1][1] == l]:
-                    fd.pop(k_, None)
-                if src is not None and isinstance(src[1], tuple) and src[1][0] == "rdy":
-                    for k_, v_ in list(fd.items()):
-                        if k_[0] == cid and isinstance(k_[1], tuple) and k_[1][0] == "rdyfld" and k_[1][1] == src[1][1]:
-                            fd[(cid, ("fld", l, k_[1][2]))] = v_
-                elif src is not None and not isinstance(src[1], tuple):
-                    for k_, v_ in list(fd.items()):
-                        if k_[0] == cid and isinstance(k_[1], tuple) and k_[1][0] == "fld" and k_[1][1] == src[1]:
-                            fd[(cid, ("fld", l, k_[1][2]))] = v_
+        cur = {}
+        rest = []
+        for it in facts:
+            k_ = it[0]
+            if k_[0] == cid:
+                cur.setdefault(k_[1], {})[k_[2]] = it[1]
             else:
-                fd.pop(key, None)
+                rest.append(it)
+        for op in _pf_compile(bv, nd.bi):
+            if op[0] == "kill":
+                if cur:
+                    kill(cur, op[1], op[2])
+                continue
+            _, l, dp, val, parts = op
+            got = [(pre, sub(cur, src) if src is not None else None, cb) for (pre, src, cb) in parts] if (cur or parts) else ()
+            if cur:
+                kill(cur, l, dp)
+            d = None
+            if val is not None:
+                d = cur.setdefault(l, {})
+                d[dp] = val
+            for (pre, fs, cb) in got:
+                if fs:
+                    if d is None:
+                        d = cur.setdefault(l, {})
+                    for (p_, v_) in fs:
+                        d[pre + p_] = v_
+                elif cb is not None:
+                    if d is None:
+                        d = cur.setdefault(l, {})
+                    d[pre] = cb
+        bl = nd.block
         t = bl["t"]
+        tk = t["k"]
         only = None
-        if t["k"] == "call" and not t["dest"].get("p"):
-            key = (cid, t["dest"]["l"])
-            fd.pop(key, None)
-            fd.pop((cid, ("rdy", t["dest"]["l"])), None)
+        sub_key = None
+        sub_ = None
+        if tk == "call":
+            dp = _pf_path(t["dest"].get("p"))
+            dl = t["dest"]["l"]
+            if dl not in _pf_relevant(bv):
+                dp = None
             cal = t.get("callee")
-            if cal == "std::ops::Try::branch" and t["args"]:
-                a_ = t["args"][0]
-                pl = a_.get("m") or a_.get("c")
-                if pl and not pl.get("p") and (cid, pl["l"]) in fd:
-                    m = TRY_MAP.get(fd[(cid, pl["l"])])
-                    if m:
-                        fd[key] = m
-            elif cal == "std::ops::FromResidual::from_residual":
-                dt = bv.crate.types[t["destt"]]
-                if dt.get("d") == "std::result::Result":
-                    fd[key] = "Err"
-                elif dt.get("d") == "std::option::Option":
-                    fd[key] = "None"
-        elif t["k"] == "switch":
-            sub = bv.switch_subject(nd.bi)
-            if sub is not None and not sub[0].get("p") and (cid, sub[0]["l"]) in fd:
-                only = fd[(cid, sub[0]["l"])]
-        is_ret = t["k"] == "return"
+            got = None
+            if dp is not None and cal == "std::ops::Try::branch" and t["args"]:
+                src = _pf_src(t["args"][0])
+                if src is not None:
+                    got = sub(cur, src)
+            if dp is not None:
+                kill(cur, dl, dp)
+                if got:
+                    d = cur.setdefault(dl, {})
+                    for (p_, v_) in got:
+                        if not p_:
+                            m = TRY_MAP.get(v_)
+                            if m:
+                                d[dp] = m
+                        elif p_[0] in (("d", "Ok"), ("d", "Some")):
+                            d[dp + (("d", "Continue"),) + p_[1:]] = v_
+                elif cal == "std::ops::FromResidual::from_residual":
+                    dt = bv.crate.types[t["destt"]]
+                    if dt.get("d") == "std::result::Result":
+                        cur.setdefault(dl, {})[dp] = "Err"
+                    elif dt.get("d") == "std::option::Option":
+                        cur.setdefault(dl, {})[dp] = "None"
+        elif tk == "switch":
+            sub_ = bv.switch_subject(nd.bi)
+            if sub_ is not None:
+                sp = _pf_path(sub_[0].get("p"))
+                if sp is not None:
+                    sub_key = (sub_[0]["l"], sp)
+            else:
+                o_ = t["o"]
+                pl_ = o_.get("m") or o_.get("c")
+                if pl_ is not None and bv.crate.types[t["ot"]]["s"] == "bool":
+                    sp = _pf_path(pl_.get("p"))
+                    if sp is not None:
+                        sub_key = (pl_["l"], sp)
+            if sub_key is not None:
+                only = cur.get(sub_key[0], {}).get(sub_key[1])
+        is_ret = tk == "return"
+        flat = None
         for w in S.succ[v]:
             if w in cut_nodes or (v, w) in cut_edges:
                 continue
-            if only is not None:
-                si = si_cache.get(v)
-                if si is None:
-                    si = guards.switch_info(bv, nd.bi)
-                    si_cache[v] = si
-                labs = [l[2] for l in S.elabel.get((v, w), []) if l[0] == "switch" and l[1] == nd.bi]
+            learn = None
+            if sub_key is not None:
+                labs = [l_[2] for l_ in S.elabel.get((v, w), []) if l_[0] == "switch" and l_[1] == nd.bi]
                 names = []
-                for lab in labs:
-                    if lab == "otherwise":
-                        covered = set(a for a, _ in si.arms)
-                        names.extend([nm for val, nm in si.names.items() if val not in covered])
-                    else:
-                        names.append(si.names.get(lab, str(lab)))
-                if names and only not in names:
-                    continue
-            out = fd
+                if sub_ is None:
+                    # boolean subject: 0 = false, otherwise = true
+                    for lab in labs:
+                        if lab == "otherwise":
+                            names.append("true" if any(a == 0 for a, _ in t["arms"]) else None)
+                        else:
+                            names.append("false" if lab == 0 else "true")
+                else:
+                    si = si_cache.get(v)
+                    if si is None:
+                        si = guards.switch_info(bv, nd.bi)
+                        si_cache[v] = si
+                    for lab in labs:
+                        if lab == "otherwise":
+                            covered = set(a for a, _ in si.arms)
+                            names.extend([nm for val, nm in si.names.items() if val not in covered])
+                        else:
+                            names.append(si.names.get(lab, str(lab)))
+                if None in names:
+                    names = []
+                if only is not None:
+                    if names and only not in names:
+                        continue
+                elif len(names) == 1 and labs and sub_key[0] not in _pf_tainted(bv):
+                    learn = ((cid, sub_key[0], sub_key[1]), names[0])
             wn = S.nodes[w]
             if is_ret and wn.ctx is not nd.ctx:
-                # return edge: map the callee's return-place fact to the caller's destination
-                out = {k: val for k, val in fd.items() if k[0] != cid}
+                # return edge: the callee's facts end; what is known of its return place is known of the caller's destination
+                out = list(rest)
                 how = nd.ctx.how
-                rv = fd.get((cid, 0))
-                if rv is not None and nd.ctx.parent is wn.ctx and how[0] in ("call", "poll"):
+                if nd.ctx.parent is wn.ctx and how[0] in ("call", "poll"):
                     d = how[1]["dest"]
-                    if not d.get("p"):
-                        if how[0] == "call":
-                            out[(wn.ctx.idx, d["l"])] = rv
-                        else:
-                            out[(wn.ctx.idx, ("rdy", d["l"]))] = rv
-            elif t["k"] == "call" and wn.ctx is not nd.ctx and wn.ctx.parent is nd.ctx and w == wn.ctx.entry and wn.ctx.how[0] == "call":
-                # call edge into a spliced synchronous callee: facts of plain-local arguments become facts of its parameters
-                out = dict(fd)
-                for i_, a_ in enumerate(t["args"]):
-                    pl_ = a_.get("m") or a_.get("c")
-                    if pl_ and not pl_.get("p") and (cid, pl_["l"]) in fd:
-                        out[(wn.ctx.idx, i_ + 1)] = fd[(cid, pl_["l"])]
-            nf = frozenset(out.items())
-            old = IN.get(w)
-            if old is None:
-                IN[w] = nf
-                work.append(w)
+                    dp = _pf_path(d.get("p"))
+                    if dp is not None and d["l"] in _pf_relevant(wn.ctx.bv):
+                        pre = dp if how[0] == "call" else dp + (("d", "Ready"), ("f", 0))
+                        pc = wn.ctx.idx
+                        n_ = len(dp)
+                        out = [it for it in out if not (it[0][0] == pc and it[0][1] == d["l"] and it[0][2][:n_] == dp)]
+                        for (p_, v_) in sub(cur, (0, ())):
+                            out.append(((pc, d["l"], pre + p_), v_))
+                nf = frozenset(out)
             else:
-                merged = old & nf
-                if merged != old:
-                    IN[w] = merged
-                    work.append(w)
+                if flat is None:
+                    flat = list(rest)
+                    for l_, d in cur.items():
+                        for p_, v_ in d.items():
+                            flat.append(((cid, l_, p_), v_))
+                out = flat
+                if learn is not None:
+                    out = flat + [learn]
+                if tk == "call" and wn.ctx is not nd.ctx and wn.ctx.parent is nd.ctx and w == wn.ctx.entry and wn.ctx.how[0] == "call":
+                    # call edge into a spliced synchronous callee: what is known of an argument is known of the parameter
+                    out = list(out)
+                    prel = _pf_relevant(wn.ctx.bv)
+                    for i_, a_ in enumerate(t["args"]):
+                        src = _pf_src(a_)
+                        if src is not None and (i_ + 1) in prel:
+                            for (p_, v_) in sub(cur, src):
+                                out.append(((wn.ctx.idx, i_ + 1, p_), v_))
+                nf = frozenset(out)
+            cl = IN.get(w)
+            if cl is None:
+                IN[w] = [nf]
+                push(w, nf)
+                continue
+            if any(e <= nf for e in cl):
+                continue
+            cl = [e for e in cl if not nf <= e]
+            cl.append(nf)
+            if len(cl) > PF_K:
+                m = cl[0]
+                for e in cl[1:]:
+                    m = m & e
+                cl = [m]
+                push(w, m)
+            else:
+                push(w, nf)
+            IN[w] = cl
+    memo[mkey] = IN
+    if want_facts:
+        return IN
     return set(IN)
 
 
@@ -743,6 +1020,16 @@ def preconditions(sm, R, rule):
             hb_ = hdr_.bv
             for v_ in sorted(L_):
                 nd_ = S_.nodes[v_]
+                if nd_.ctx is hdr_ and nd_.term["k"] == "switch" and hb_.switch_subject(nd_.bi) is not None and any(b_ not in L_ for b_ in S_.succ[v_]):
+                    # .. or on an Option/enum value computed by the arms (`let give_up: Option<Error> = match result { .. }`)
+                    sub_ = hb_.switch_subject(nd_.bi)
+                    if not sub_[0].get("p"):
+                        tt_ = hb_.trace_place(sub_[0])
+                        alts_ = tt_[1] if tt_[0] == "phi" else []
+                        if len(alts_) >= 3 and all(a_[0] == "agg" and a_[1] == "adt" for a_ in alts_) and len(set(a_[2] for a_ in alts_)) >= 2:
+                            R.condition("merged-retry-decision", "the request loop is left on a value that merges %d alternatives built by the arms (%s): which error ends the attempts cannot be read off the edges" % (len(alts_), nd_.loc()),
+                                        ("C02-R3", "C06-R1", "C06-R2", "C06-R3", "C06-R4", "C06-R5", "C14-R1"))
+                            break
                 if nd_.ctx is not hdr_ or nd_.term["k"] != "switch" or hb_.switch_subject(nd_.bi) is not None or hb_.crate.types[nd_.term["ot"]]["s"] != "bool":
                     continue
                 if not any(b_ not in L_ for b_ in S_.succ[v_]):
@@ -818,6 +1105,15 @@ def merged_value_guard(S, x):
                 for b in bv.succ[sb]:
                     if bv.dominated_by_edge(nd.bi, [(sb, b)]):
                         return "%s is decided by a boolean merged from %d constant cases (%s)" % (nd.loc(), len(ct[1]), lib.loc(bv, sb))
+            # `if reason == Reason::Omaha`: equality of such a computed value with a constant
+            if ct[0] == "call" and ct[1].rsplit("::", 1)[-1] in ("eq", "ne") and "PartialEq" in ct[1] and len(ct[2]) == 2:
+                for a_ in ct[2]:
+                    while a_[0] in ("ref", "deref"):
+                        a_ = a_[1]
+                    if a_[0] == "phi" and len(a_[1]) >= 2 and all(y[0] == "agg" and y[1] == "adt" and not y[3] for y in a_[1]):
+                        for b in bv.succ[sb]:
+                            if bv.dominated_by_edge(nd.bi, [(sb, b)]):
+                                return "%s is decided by comparing a value computed earlier from %d cases with a constant (%s)" % (nd.loc(), len(a_[1]), lib.loc(bv, sb))
             continue
         term = bv.trace_place(sub[0]) if isinstance(sub[0], dict) else None
         if term is None or term[0] != "phi":
